@@ -779,7 +779,40 @@ func lightStage(r *ev.Run, m int) {
 		}
 	}
 	// mesh lights
+	type namedMesh struct {
+		Name string
+		Mesh func() *model3d.Mesh
+	}
+	var lightMeshes []namedMesh
 	for _, nm := range cat.Closed3(true)[:4] {
+		lightMeshes = append(lightMeshes, namedMesh{nm.Name, nm.Mesh})
+	}
+	// meshes that also carry zero-area faces (two equal corners, or three collinear ones), as left behind by
+	// decimation or vertex merging: they emit nothing and must not disturb the selection of the others
+	for _, nm := range cat.Closed3(true)[:2] {
+		nm := nm
+		lightMeshes = append(lightMeshes, namedMesh{nm.Name + "+collapsed-faces", func() *model3d.Mesh {
+			m := nm.Mesh()
+			vs := m.VertexSlice()
+			sort.Slice(vs, func(i, j int) bool {
+				a, b := vs[i].Array(), vs[j].Array()
+				return a[0] < b[0] || (a[0] == b[0] && (a[1] < b[1] || (a[1] == b[1] && a[2] < b[2])))
+			})
+			for i := 0; i < 12; i++ {
+				a, b := vs[i%len(vs)], vs[(i*5+1)%len(vs)]
+				if a == b {
+					b = vs[(i+2)%len(vs)]
+				}
+				if i%2 == 0 {
+					m.Add(&model3d.Triangle{a, a, b})
+				} else {
+					m.Add(&model3d.Triangle{a, a.Mid(b), b})
+				}
+			}
+			return m
+		}})
+	}
+	for _, nm := range lightMeshes {
 		mesh := nm.Mesh()
 		l := render3d.NewMeshAreaLight(mesh, em)
 		c := rcase{What: "MeshAreaLight", Params: nm.Name}
